@@ -3,7 +3,7 @@ CONSTANTS
   Repos = {"r1", "r2"}
   Tags = {"t1"}
   Cids = {"b0", "b1", "b2", "img", "idx", "idy", "sub", "bad"}
-  BlobIds = {"b0", "b1", "b2"}
+  BlobIds = {"b1", "b2"}
   ManIds = {}
   Cat <- MCCat
   UploadIds = {"u1"}
